@@ -177,7 +177,18 @@ func viewEqual(a, b View) bool {
 	return x.String() == y.String()
 }
 
-func c15Run(r *Run, state string) {
+// c15Setup is one of the six start states plus the full request menu.
+type c15Setup struct {
+	scn      Scenario
+	pre      []Action
+	w        *World
+	base     []byte
+	baseHash string
+	view     View
+	menu     []Action
+}
+
+func c15Build(r *Run, state string) *c15Setup {
 	g := AdminGenesis()
 	g.TokenPairList = append(g.TokenPairList, cctptypes.TokenPair{RemoteDomain: 7, RemoteToken: distinct32(0xC7), LocalToken: "uusdc"}) // linked pair without a messenger
 	switch state {
@@ -226,7 +237,6 @@ func c15Run(r *Run, state string) {
 	base := w.Dump()
 	baseHash := HashBytes(base)
 	view := ViewOf(w)
-	r.States++
 
 	// ---- menu
 	var menu []Action
@@ -323,6 +333,13 @@ func c15Run(r *Run, state string) {
 		MkReplaceDeposit(UserA.Str, origDep[:100], attDep, distinct32(0x26), distinct32(0x27), "100-byte original"),
 	)
 
+	return &c15Setup{scn: scn, pre: pre, w: w, base: base, baseHash: baseHash, view: view, menu: menu}
+}
+
+func c15Run(r *Run, state string) {
+	su := c15Build(r, state)
+	scn, pre, w, base, baseHash, view, menu := su.scn, su.pre, su.w, su.base, su.baseHash, su.view, su.menu
+	r.States++
 	observed := map[string]any{}
 	for _, a := range menu {
 		w.Load(base)
